@@ -440,6 +440,17 @@ Fixpoint schedule (fuel : nat) (p : bool) (c : cfg) (oc : N -> outcome) (cands :
            end
   end.
 
+(* the same, also returning the actions fired (oldest first) *)
+Fixpoint schedule_trace (fuel : nat) (p : bool) (c : cfg) (oc : N -> outcome) (cands : list action) (s : state)
+  : list action * state :=
+  match fuel with
+  | O => ([], s)
+  | S f => match first_enabled p c oc s cands with
+           | Some (a, s') => let r := schedule_trace f p c oc cands s' in (a :: fst r, snd r)
+           | None => ([], s)
+           end
+  end.
+
 (* number of SCTs among [scts] from logs of group g *)
 Definition count_in (scts : list N) (logs : list N) : Z :=
   Z.of_nat (length (filter (fun l => memN l logs) scts)).
